@@ -105,32 +105,43 @@ def run_config(V, rng, tier, run_label, MV, AV, BV, CV, MAPS, flagsets):
             expected = {}
             for name_t, vals in f[len(f0):]:
                 expected[rname(name_t)] = (name_t[0], vals)
-            for nm, (kind, vals) in expected.items():
-                if nm not in ob['values']:
-                    V.violation(f'missing-column:{kind}:{key}', f'specified column {nm!r} was not constructed (constructed: {ob["columns"][n0:]})', item)
-                    break
-                real = ob['values'][nm]
-                if kind in ('MULTIEX', 'SUB1', 'SUB2'):
+            newcols = {c_: ob['values'][c_] for c_ in ob['columns'][n0:]}
+
+            def satisfies(kind, vals, real):
+                """the stated rule for a constructed column, independent of its name and of the filler used on the other rows"""
+                if kind == 'MULTIEX':
+                    return all((rv == '1') == (rval(v) == '1') for rv, v in zip(real, vals))
+                if kind == 'SUB1':
                     exp = [rval(v) for v in vals]
-                    if real != exp:
-                        V.violation(f'rule:{kind}:{key}', f'column {nm!r} = {real}, rule gives {exp}', item)
-                        break
-                elif kind == 'AND':
-                    if canon(real) != canon(vals):
-                        V.violation(f'rule:AND:{key}', f'column {nm!r} groups rows as {canon(real)}, joint values group them as {canon(vals)}', item)
-                        break
-                elif nm == 'CONTROL-target':
-                    if real != [rval(v) for v in vals]:
-                        V.violation(f'rule:CONTROL-target:{key}', f'CONTROL-target = {real}, label = {[rval(v) for v in vals]}', item)
-                        break
-            extra = [c for c in ob['columns'][n0:] if c not in expected]
+                    on = [i_ for i_, e_ in enumerate(exp) if e_ != '']
+                    off = [i_ for i_, e_ in enumerate(exp) if e_ == '']
+                    return all(real[i_] == exp[i_] for i_ in on) and len({real[i_] for i_ in off}) <= 1 and all(real[i_] not in {exp[j_] for j_ in on} for i_ in off)
+                if kind == 'SUB2':
+                    exp = [rval(v) for v in vals]
+                    off = {real[i_] for i_, e_ in enumerate(exp) if e_ != '1'}
+                    return all(real[i_] == '1' for i_, e_ in enumerate(exp) if e_ == '1') and len(off) <= 1 and '1' not in off
+                if kind == 'AND':
+                    return canon(real) == canon(vals)
+                return True
+            for nm, (kind, vals) in expected.items():
+                if kind == 'CONTROL':
+                    if nm == 'CONTROL-target':
+                        want = [rval(v) for v in vals]
+                        if not any(rv == want for rv in newcols.values()):
+                            V.violation(f'rule:CONTROL-target:{key}', f'no constructed column replicates the label {want} (constructed: {list(newcols)})', item)
+                            break
+                    continue
+                if nm in newcols and satisfies(kind, vals, newcols[nm]):
+                    continue
+                if any(satisfies(kind, vals, rv) for rv in newcols.values()) and kind != 'AND':
+                    drift += 1                      # the rule is satisfied by a column under another name
+                    continue
+                shown = newcols.get(nm)
+                V.violation(f'rule:{kind}:{key}', f'column {nm!r} = {shown}; the stated rule gives {[rval(v) for v in vals] if kind != "AND" else canon(vals)} (no constructed column satisfies it)', item)
+                break
+            extra = [c_ for c_ in ob['columns'][n0:] if c_ not in expected]
             if extra:
-                # MULTIEX columns for tokens the spec does not list, or unexpected constructions
-                bad = [c for c in extra if c.startswith(('MULTIEX-', 'SUBFEATURE'))]
-                if bad:
-                    V.violation(f'unspecified-column:{key}', f'constructed columns {bad} follow no stated rule for this frame', item)
-                else:
-                    drift += 1
+                drift += 1
     V.count(evaluations=len(cases), nontrivial=nontriv, traces=len(cases))
     V.notes['drift_extra_columns_' + run_label] = drift
     mid = len(items) // 2
